@@ -83,16 +83,9 @@ def shape_hints(F):
 
 
 def hint_call(L, names):
-    """call text of a shape law with its parameters bound to local expressions (Sc-typed names -> views)"""
-    args = []
-    for (nm, cls), v in zip(L.params, L.vars):
-        e = names[nm]
-        if cls is R:
-            args.append('%s@' % e)
-        else:
-            for leaf in v.leaves():
-                args.append(leaf.spec.replace(nm, e, 1) + '@')
-    return 'poly::p_%s(%s);' % (L.name, ', '.join(args))
+    """call text of a shape law (its struct-level form `law_<name>`: the code-shaped side is then present as model-scalar
+    terms, which the ring lemmas can rewrite) with its parameters bound to parameter / spec expressions"""
+    return 'law_%s(%s);' % (L.name, ', '.join(names[nm] for (nm, cls) in L.params))
 
 
 ROTS = r"(&'[a-z]+ )?(Basis2|Basis3)<S>"
